@@ -36,8 +36,13 @@ fn opt<T, F: Fn(T) -> Value>(o: Option<T>, f: F) -> Value {
         None => none(),
     }
 }
+// a position / count; negative numbers encode positions near usize::MAX (-1 = usize::MAX, -2 = usize::MAX - 1, ...):
+// the trace specification cannot hold 64-bit numbers
 fn us(v: &Value) -> usize {
-    v.as_u64().unwrap_or(0) as usize
+    match v.as_i64() {
+        Some(x) if x < 0 => usize::MAX - ((-x - 1) as usize),
+        _ => v.as_u64().unwrap_or(0) as usize,
+    }
 }
 
 // ------------------------------------------------------------------------------------------------
